@@ -175,4 +175,28 @@ def Content.hasProp (v : Content) (k : Nat) : Prop := k < v.propsLo ∨ (v.props
 def Shows (hasIndex : Bool) (v : Content) (c : Nat) : Prop :=
   v.nodes = c ∧ v.edgesTo = c ∧ (∀ k, v.hasProp k ↔ k < c) ∧ v.idx = (if hasIndex then c else 0)
 
+/-! ### restore over an existing database
+
+    mirrors `BackupManager::restore_from_backup`: each backup file is written to its target path.  How
+    the destination is opened (regenerated `Generated.restoreDestModes`) decides what happens to a file
+    that is already there. -/
+
+/-- bytes: writing `new` into a file that holds `old`.  Replacing (truncate / create / rename over)
+    leaves exactly `new`; an in-place overwrite without truncation keeps the old bytes beyond `new.length`. -/
+def overwrite {α} (replaces : Bool) (old new : List α) : List α :=
+  if replaces then new else new ++ old.drop new.length
+
+/-- counters: the log `t` is the log `b` continued (same history, strictly more records) — then `b`'s
+    bytes are a proper prefix of `t`'s, the WAL being append-only and record-aligned -/
+def Wal.continues (t b : Wal) : Bool :=
+  t.first == b.first && decide (b.txs ≤ t.txs) && decide (b.ckpt ≤ t.ckpt) && decide (b.msegs ≤ t.msegs) &&
+    (decide (b.txs < t.txs) || decide (b.msegs < t.msegs))
+
+/-- the pair of files a restore of backup `b` leaves at a target that held `target` -/
+def restoreOver (replaces : Bool) (target : Option (PF × Wal)) (b : PF × Wal) : PF × Wal :=
+  if replaces then b else
+  match target with
+  | none => b
+  | some (_, tw) => (b.1, if tw.continues b.2 then tw else b.2)   -- the old log's tail survives behind the restored bytes
+
 end Nervus.BackupLTS
